@@ -34,7 +34,7 @@ def verified(m):
 
 brk = sorted(m for m in M if m.split("-")[1].startswith("m"))
 pre = sorted(m for m in M if m.split("-")[1].startswith("p"))
-print("**Breaking changes** (m1, m2: round 1; m3, m4: round 2)\n")
+print("**Breaking changes** (m1, m2: round 1; m3, m4: round 2; m5, m6: round 3)\n")
 print("| change | what it does | checks as they were when it arrived | own check now | other properties firing now | re-verified |")
 print("|---|---|---|---|---|---|")
 for m in brk:
@@ -43,8 +43,8 @@ for m in brk:
     ownr = ", ".join(r[own][1]) if r[own][0] == 1 else f"exit {r[own][0]}"
     others = "; ".join(f"{p}: {', '.join(v[1]) or 'exit 2'}" for p, v in sorted(r.items()) if p != own and v[0] != 0)
     print(f"| {m} | {short(m)} | {F.get(m, '?')} | {ownr} | {others or '-'} | {verified(m)} |")
-print("\n**Behaviour-preserving refactorings** (round 2; every check must stay silent)\n")
-print("| change | what it does | checks as they were when it arrived | now |  baseline with p1+p2 |")
+print("\n**Behaviour-preserving refactorings** (p1, p2: round 2; p3, p4: round 3; every check must stay silent)\n")
+print("| change | what it does | checks as they were when it arrived | now | baseline with both of the round applied |")
 print("|---|---|---|---|---|")
 for m in pre:
     r = M[m]
@@ -52,15 +52,38 @@ for m in pre:
     print(f"| {m} | {short(m)} | {F.get(m, '?')} | {bad or 'silent (all 20 checks)'} | {verified(m)} |")
 n1 = [m for m in brk if m.endswith(("m1", "m2"))]
 n2 = [m for m in brk if m.endswith(("m3", "m4"))]
+n3 = [m for m in brk if m.endswith(("m5", "m6"))]
+p2 = [m for m in pre if m.endswith(("p1", "p2"))]
+p3 = [m for m in pre if m.endswith(("p3", "p4"))]
 
 
 def first_caught(m):
+    """caught by the OWN property's check at arrival"""
+    import re
+    f = re.sub(r"^round \d( preserving)?: *", "", F.get(m, ""))
+    return f.startswith("caught")
+
+
+def first_any(m):
     f = F.get(m, "")
-    return f.startswith("caught") or f.startswith("round 2: caught")
+    return first_caught(m) or "caught by C" in f or "caught by R-" in f
 
 
-print(f"\nRound 1: {sum(first_caught(m) for m in n1)} of {len(n1)} caught by the own property's check as it was when the change arrived; "
-      f"round 2: {sum(first_caught(m) for m in n2)} of {len(n2)}. Now: "
-      f"{sum(M[m][m.split('-')[0]][0] == 1 for m in brk)} of {len(brk)} caught by the own check. Preserving refactorings silent at arrival: "
-      f"{sum('silent' in F.get(m, '') and 'FALSE' not in F.get(m, '') and 'exit 2' not in F.get(m, '') for m in pre)} of {len(pre)}; now "
-      f"{sum(all(v[0] == 0 for v in M[m].values()) for m in pre)} of {len(pre)}.")
+def first_silent(m):
+    f = F.get(m, "")
+    return "silent" in f and "FALSE" not in f and "exit 2" not in f
+
+
+now_own = lambda ms: sum(M[m][m.split('-')[0]][0] == 1 for m in ms)
+now_any = lambda ms: sum(any(v[0] == 1 for v in M[m].values()) for m in ms)
+now_sil = lambda ms: sum(all(v[0] == 0 for v in M[m].values()) for m in ms)
+print()
+print("| round | breaking changes | caught by the own check at arrival | caught by some check at arrival | caught by the own check now | by some check now |")
+print("|---|---|---|---|---|---|")
+for nm, ms in (("1", n1), ("2", n2), ("3", n3)):
+    print(f"| {nm} | {len(ms)} | {sum(first_caught(m) for m in ms)} | {sum(first_any(m) for m in ms)} | {now_own(ms)} | {now_any(ms)} |")
+print()
+print("| round | preserving refactorings | silent (all 20 checks) at arrival | silent now |")
+print("|---|---|---|---|")
+for nm, ms in (("2", p2), ("3", p3)):
+    print(f"| {nm} | {len(ms)} | {sum(first_silent(m) for m in ms)} | {now_sil(ms)} |")
